@@ -112,6 +112,9 @@ pub struct World {
     pub unwrapped: [bool; MAXN],
     /// an allocation inside a callback did not follow the documented trigger policy (C15 / C12)
     pub bad_trigger: u32,
+    /// C11: predict the exact set of buffered objects (finalizer-free programs only)
+    pub predict: bool,
+    pub buffered: [bool; MAXN],
     // ---- program-held pointers
     pub h: [Option<Cc<Node>>; MAXN],
     pub h2: [Option<Cc<Node>>; MAXN],
@@ -170,6 +173,8 @@ pub static mut W: World = World {
     bad_upgrade: 0,
     unwrapped: [false; MAXN],
     bad_trigger: 0,
+    predict: false,
+    buffered: [false; MAXN],
     h: [NO_CC; MAXN],
     h2: [NO_CC; MAXN],
     stash: [NO_CC; MAXN],
@@ -395,9 +400,16 @@ impl Drop for Node {
         }
         self.canary = 0xDEAD_0000 + id as u32;
         // The drop glue releases the fields right after this returns: mirror it in the model.
+        let targets = [w.edge[id][0], w.edge[id][1], w.uedge[id]];
         w.edge[id] = [NONE; 2];
         w.uedge[id] = NONE;
         w.wedge[id] = NONE;
+        w.buffered[id] = false;
+        for t in targets {
+            if t != NONE && t as usize != id {
+                predict_drop(t as usize);
+            }
+        }
         note_unreachable();
         maybe_fault(K_DROP);
         match w.drop_act[id] {
@@ -449,6 +461,47 @@ impl Drop for Node {
             }
             _ => {}
         }
+    }
+}
+
+/// C11 model: a Cc to `t` is about to be dropped (the shadow model has already forgotten that pointer).
+pub fn predict_drop(t: usize) {
+    let w = w();
+    if !w.predict {
+        return;
+    }
+    let (collecting, _, _) = rust_cc::verif::phase_flags();
+    if collecting {
+        // the collector is destroying garbage: pointers from garbage to objects that stay alive buffer those objects
+        if reach_set()[t] && w.drops[t] == 0 {
+            w.buffered[t] = true;
+        }
+        return;
+    }
+    // one of several Ccs dropped => buffered; the last one => freed (and unbuffered)
+    w.buffered[t] = model_count(t) >= 1;
+}
+
+/// C11 model: the object was cloned / marked alive / downgraded / upgraded: it leaves the buffer.
+pub fn predict_alive(t: usize) {
+    let w = w();
+    if w.predict {
+        w.buffered[t] = false;
+    }
+}
+
+/// C11 model: a collection ran to completion at top level.
+pub fn predict_collected_begin() {
+    let w = w();
+    if w.predict {
+        w.buffered = [false; MAXN]; // every buffered object is taken out and processed
+    }
+}
+pub fn predict_collected_end() {
+    let w = w();
+    if w.predict && cfg!(feature = "finalization") {
+        // with finalization the collection repeats until the buffer is empty
+        w.buffered = [false; MAXN];
     }
 }
 
@@ -614,8 +667,13 @@ pub fn set_slot(i: usize, s: usize, j: usize) {
     let Some(owner) = handle(i) else { return };
     let c = src.clone();
     let old = core::mem::replace(&mut owner.slots()[s], Some(c));
+    let old_t = w.edge[i][s];
     w.edge[i][s] = j as u8;
+    predict_alive(j);
     note_unreachable();
+    if old_t != NONE {
+        predict_drop(old_t as usize);
+    }
     drop(old);
 }
 
@@ -630,8 +688,12 @@ pub fn clear_slot(i: usize, s: usize) {
     let w = w();
     let Some(p) = node_ptr(i) else { return };
     let old = unsafe { &*p }.slots()[s].take();
+    let old_t = w.edge[i][s];
     w.edge[i][s] = NONE;
     note_unreachable();
+    if old_t != NONE {
+        predict_drop(old_t as usize);
+    }
     drop(old);
 }
 
@@ -653,18 +715,25 @@ pub fn clone_h(i: usize) {
     }
     let Some(src) = handle(i) else { return };
     let c = src.clone();
+    predict_alive(i);
     w.h2[i] = Some(c);
 }
 
 pub fn drop_h(i: usize) {
     let c = w().h[i].take();
     note_unreachable();
+    if c.is_some() {
+        predict_drop(i);
+    }
     drop(c);
 }
 
 pub fn drop_h2(i: usize) {
     let c = w().h2[i].take();
     note_unreachable();
+    if c.is_some() {
+        predict_drop(i);
+    }
     drop(c);
 }
 
@@ -676,6 +745,7 @@ pub fn drop_stash(i: usize) {
 
 pub fn mark_alive(i: usize) {
     if let Some(c) = handle(i) {
+        predict_alive(i);
         c.mark_alive();
     }
 }
@@ -915,7 +985,9 @@ pub fn collect_quiescent(max: u32, base: u32) {
         let d0 = w.count[K_DROP as usize];
         let f0 = w.count[K_FINALIZE as usize];
         w.in_collect = true;
+        predict_collected_begin();
         collect_cycles();
+        predict_collected_end();
         w.in_collect = false;
         if w.count[K_DROP as usize] == d0 && w.count[K_FINALIZE as usize] == f0 {
             break;
